@@ -8,3 +8,6 @@ pub trait StrictPartialOrd<Rhs: ?Sized = Self>: PartialOrd<Rhs> {
         self.partial_cmp(other)
     }
 }
+
+#[cfg(kani)]
+pub(crate) mod verif_kani;
